@@ -58,12 +58,29 @@ Lemma n_backoffs_app a b : n_backoffs (a ++ b) = n_backoffs a + n_backoffs b.
 Proof. unfold n_backoffs. now rewrite filter_app, app_length. Qed.
 
 (* ---- back-off never touches the replicas ---- *)
-Lemma backoff_frame c k s s' e : backoff c k s = Some (s', e) ->
+Definition quiet (evs : list event) : Prop := n_attempts evs = 0 /\ n_rearms evs = 0.
+Lemma quiet_nil : quiet []. Proof. split; reflexivity. Qed.
+#[export] Hint Resolve quiet_nil : core.
+
+Lemma backoff_frame c k s s' e : backoff c k s = BoOk s' e ->
   reps s' = reps s /\ q_rr s' = q_rr s /\ q_stale s' = q_stale s /\ q_retry s' = q_retry s /\ exists sl, e = EBo k sl.
 Proof.
-  unfold backoff. destruct ((0 <? c_max_sleep c)%N && budget_exceeded c k s); [discriminate|].
-  destruct (pop 0%N (orc_s s)) as [sl0 rest]. destruct (excluded k); intros H; inversion H; subst; simpl; eauto 10.
+  unfold backoff. destruct (dead s); [discriminate|].
+  destruct ((0 <? c_max_sleep c)%N && budget_exceeded c k s); [discriminate|].
+  destruct (pop 0%N (orc_s s)) as [sl0 rest]. cbv zeta.
+  match goal with |- (if ?b then _ else _) = _ -> _ => destruct b end; [discriminate|].
+  destruct (excluded k); intros H; inversion H; subst; simpl; eauto 10.
 Qed.
+Lemma backoff_killed c k s e : backoff c k s = BoKilled e -> exists sl, e = EBo k sl.
+Proof.
+  unfold backoff. destruct (dead s); [discriminate|].
+  destruct ((0 <? c_max_sleep c)%N && budget_exceeded c k s); [discriminate|].
+  destruct (pop 0%N (orc_s s)) as [sl0 rest]. cbv zeta.
+  match goal with |- (if ?b then _ else _) = _ -> _ => destruct b end; [|discriminate].
+  intros H; inversion H; eauto.
+Qed.
+Lemma quiet_bo k sl : quiet [EBo k sl]. Proof. split; reflexivity. Qed.
+#[export] Hint Resolve quiet_bo : core.
 
 Lemma atts_set_leader v s : atts (set_leader v s) = atts s. Proof. reflexivity. Qed.
 Lemma atts_set_valid v s : atts (set_valid v s) = atts s. Proof. reflexivity. Qed.
@@ -92,17 +109,18 @@ Ltac atts_norm := repeat (first [ progress autorewrite with atts_db | rewrite at
 Lemma with_backoff_spec c k s r0 :
   match with_backoff c k s r0 with
   | HRetry s' evs => atts s' = atts s /\ n_attempts evs = 0 /\ n_rearms evs = 0
-  | HDone _ evs => evs = []
+  | HDone _ evs => quiet evs
   end.
 Proof.
-  unfold with_backoff. destruct (backoff c k s) as [[s' e]|] eqn:E; auto.
-  apply backoff_frame in E as (Hr & _ & _ & _ & sl & ->). unfold atts. rewrite Hr. auto.
+  unfold with_backoff. destruct (backoff c k s) as [s' e| |e] eqn:E; auto.
+  - apply backoff_frame in E as (Hr & _ & _ & _ & sl & ->). unfold atts. rewrite Hr. auto.
+  - apply backoff_killed in E as (sl & ->). auto.
 Qed.
 
 Lemma on_busy_spec c s t w :
   match on_busy c s t w with
   | HRetry s' evs => atts s' = atts s /\ n_attempts evs = 0 /\ n_rearms evs = 0
-  | HDone _ evs => evs = []
+  | HDone _ evs => quiet evs
   end.
 Proof.
   unfold on_busy.
@@ -118,10 +136,10 @@ Qed.
 Lemma on_send_fail_spec c s t d l :
   match on_send_fail c s t d l with
   | HRetry s' evs => atts s' = atts s /\ n_attempts evs = 0 /\ n_rearms evs = 0
-  | HDone _ evs => evs = []
+  | HDone _ evs => quiet evs
   end.
 Proof.
-  unfold on_send_fail. destruct (d && c_short_to c && c_read c).
+  unfold on_send_fail. destruct (dead s); [auto|]. destruct (d && c_short_to c && c_read c).
   - atts_norm. auto.
   - match goal with |- context [with_backoff c BoRPC ?x RError] => set (s2 := x) end.
     assert (H : atts s2 = atts s)
@@ -136,7 +154,7 @@ Proof. unfold room. now intros ->. Qed.
 Lemma on_not_leader_hint_spec lim s t k :
   match on_not_leader_hint lim s t k with
   | HRetry s' evs => room s' <= room s + n_rearms evs /\ n_attempts evs = 0
-  | HDone _ evs => evs = []
+  | HDone _ evs => quiet evs
   end.
 Proof.
   unfold on_not_leader_hint. cbv zeta.
@@ -164,14 +182,14 @@ Qed.
 Lemma handle_spec fixed c s t o i :
   match handle fixed c s t o i with
   | HRetry s' evs => room s' <= room s + n_rearms evs /\ n_attempts evs = 0
-  | HDone _ evs => evs = []
+  | HDone _ evs => quiet evs
   end.
 Proof.
-  assert (G : forall h, match h with HRetry s' evs => atts s' = atts s /\ n_attempts evs = 0 /\ n_rearms evs = 0 | HDone _ evs => evs = [] end ->
-              match h with HRetry s' evs => room s' <= room s + n_rearms evs /\ n_attempts evs = 0 | HDone _ evs => evs = [] end).
+  assert (G : forall h, match h with HRetry s' evs => atts s' = atts s /\ n_attempts evs = 0 /\ n_rearms evs = 0 | HDone _ evs => quiet evs end ->
+              match h with HRetry s' evs => room s' <= room s + n_rearms evs /\ n_attempts evs = 0 | HDone _ evs => quiet evs end).
   { intros [s' evs|r evs]; auto. intros (A & B & C). rewrite (room_eq _ _ A). lia. }
   assert (W : forall k s0 r0, atts s0 = atts s ->
-              match with_backoff c k s0 r0 with HRetry s' evs => room s' <= room s + n_rearms evs /\ n_attempts evs = 0 | HDone _ evs => evs = [] end).
+              match with_backoff c k s0 r0 with HRetry s' evs => room s' <= room s + n_rearms evs /\ n_attempts evs = 0 | HDone _ evs => quiet evs end).
   { intros k s0 r0 E. pose proof (with_backoff_spec c k s0 r0) as X. destruct (with_backoff c k s0 r0); auto.
     destruct X as (A & B & C). rewrite (room_eq _ _ (eq_trans A E)). lia. }
   destruct o; cbn [handle]; auto;
